@@ -348,7 +348,9 @@ func (s *scanner) ReadString() (String, error) {
 	bracketLevel := 1 // we are already inside the opening "("
 	ignoreLF := false
 	for {
-		if len(res) >= maxStringBytes {
+		// A string of exactly maxStringBytes bytes is allowed: the limit is
+		// only exceeded once a further byte has been added.
+		if len(res) > maxStringBytes {
 			return nil, &MalformedFileError{
 				Err: errors.New("string too long"),
 			}
